@@ -8,6 +8,7 @@ from ...core.time import TimeAxis
 
 from ...utils.types import BasisManagedComplexArray
 from ...core.managers import BasisManaged
+from ...core.managers import energy_units
 
 from .dmevolution import DensityMatrixEvolution
 from ..hilbertspace.operators import DensityMatrix
@@ -48,7 +49,9 @@ class StateVectorEvolution(MatrixData, BasisManaged):
         
         if (self.is_in_rwa and sgn == 1) or sgn == -1:
             
-            HOmega = ham.get_RWA_skeleton()
+            # frequencies of the frame multiply times in internal units
+            with energy_units("int"):
+                HOmega = ham.get_RWA_skeleton()
             
             # the rotating frame coincides with the laboratory frame at
             # the time of the initial condition (first point of the axis)
